@@ -215,6 +215,29 @@ class Engine:
         cache[k] = r
         return r
 
+    @staticmethod
+    def flat_concat(*parts):
+        """Right-nested concatenation of the leaves of the given sequence terms without empty parts; subterms are
+        left untouched (z3.simplify would also rewrite lengths inside them, see lite_simplify)."""
+        leaves = []
+
+        def walk(t):
+            if z3.is_app_of(t, z3.Z3_OP_SEQ_CONCAT):
+                for ch in t.children():
+                    walk(ch)
+            elif z3.is_app_of(t, z3.Z3_OP_SEQ_EMPTY):
+                return
+            else:
+                leaves.append(t)
+        for pt in parts:
+            walk(pt)
+        if not leaves:
+            return z3.Empty(S)
+        out = leaves[-1]
+        for lf in reversed(leaves[:-1]):
+            out = z3.Concat(lf, out)
+        return out
+
     def length_terms(self, f):
         cache = self.__dict__.setdefault("_len_cache", {})
         k = f.get_id()
